@@ -2,5 +2,5 @@ SPECIFICATION Spec
 CONSTANTS
   Emit = TRUE
   Chains = TRUE
-INVARIANTS AlgoIsSpec IdentityHolds DiagonalOnly DeclaredCoherent ElementTableOK Export
+INVARIANTS AlgoIsSpec IdentityHolds DiagonalOnly DeclaredCoherent LayersPresent ElementTableOK Export
 CHECK_DEADLOCK FALSE
